@@ -618,6 +618,15 @@ impl<'c, 's, 'ast> Visit<'ast> for FnVisitor<'c, 's> {
             visit::visit_expr_method_call(self, m);
             return;
         }
+        // R13: eta-expand a function path passed to `.map(..)`: `.map(F)` -> `.map(|vx_x| F(vx_x))`
+        // (Verus: "using a datatype constructor as a function value" is unsupported)
+        if name == "map" && m.args.len() == 1 {
+            if let syn::Expr::Path(p) = &m.args[0] {
+                let (a, b) = br(p.span());
+                let t = self.cx.text(a, b).to_string();
+                self.cx.edit(a, b, format!("|vx_x| {}(vx_x)", t), "R13");
+            }
+        }
         // R6: RECV.iter().position(|PAT| BODY) / .any(|PAT| BODY) -> explicit loop
         if (name == "position" || name == "any") && m.args.len() == 1 {
             if let (syn::Expr::MethodCall(inner), syn::Expr::Closure(cl)) = (&*m.receiver, &m.args[0]) {
